@@ -809,7 +809,8 @@ namespace foonathan
                     for (std::size_t i = 0u; i != size_; ++i)
                         objects_[i].~T();
 
-                    if (size_)
+                    // also if the very first element could not be constructed
+                    if (objects_)
                         stack_->unwind(objects_);
                 }
 
@@ -834,6 +835,7 @@ namespace foonathan
                 {
                     auto res = size_;
                     size_    = 0u;
+                    objects_ = nullptr;
                     return res;
                 }
 
